@@ -16,7 +16,8 @@ Actions == {a \in [binary : BOOLEAN, dir : BOOLEAN, fork : BOOLEAN, proto : Prot
 (* the server's options (baseArgs) and its tmux situation *)
 Args == [quiet : BOOLEAN, overwrite : BOOLEAN, binary : BOOLEAN, directory : BOOLEAN, bufk : {1, 10240},
          timeout : {0, 20}, compress : {0, 1}, stmux : BOOLEAN,
-         winsrv : BOOLEAN]      \* the trigger says the server runs on Windows ("!\n" line framing)
+         winsrv : BOOLEAN,      \* the trigger says the server runs on Windows ("!\n" line framing)
+         swidth : {0, 50, 200}] \* the server's own tmux pane width (0: none reported)
 (* the relay's own situation *)
 Relays == [tmux : BOOLEAN, width : {0, 80}]
 
@@ -32,7 +33,7 @@ ServerCfg(act, g) ==
      compress |-> g.compress,
      binary |-> (act.tunnel \/ (g.binary /\ act.binary)),
      proto |-> IF act.proto > 0 THEN Min(act.proto, MaxProto) ELSE 0,
-     junk |-> g.stmux, width |-> 0,
+     junk |-> g.stmux, width |-> g.swidth,
      newline |-> "absent"]          \* a server never sends the newline field
 
 (* relay.go handshake(): what is sent on to the client *)
@@ -51,6 +52,7 @@ Init == /\ act \in Actions /\ args \in Args /\ relay \in Relays
         \* a client facing a Windows server announces the Windows newline (sendAction: remoteIsWindows);
         \* Windows servers behind a tunnel are outside this module
         /\ (args.winsrv => act.winnl /\ ~act.tunnel)
+        /\ (args.swidth > 0 => args.stmux)          \* only a server inside tmux reports a pane width
         /\ actOut = RewriteAct(act) /\ cfgIn = ServerCfg(RewriteAct(act), args)
         /\ cfgOut = RewriteCfg(ServerCfg(RewriteAct(act), args), relay, act, args) /\ done = FALSE
 Next == ~done /\ done' = TRUE /\ UNCHANGED <<act, args, relay, actOut, cfgIn, cfgOut>>
